@@ -206,7 +206,14 @@ class Ctx:
         if stubs:
             ensure_stubs()
         out = os.path.join(BUILD, "bin", engine + ".test")
-        cmd = ["go", "test", "-c", "-tags", "verif", "-vet=off", "-o", out, "./engines/" + engine]
+        cmd = ["go", "test", "-c", "-tags", "verif", "-vet=off", "-o", out]
+        if REPO != "/repo":
+            # development aid: build against a scratch worktree of juno (VERIF_REPO) without
+            # touching harness/go.mod; registered commands never set it.
+            out = os.path.join(self.scratch, engine + ".test")
+            cmd[cmd.index("-o") + 1] = out
+            cmd.append("-modfile=" + alt_modfile(self.scratch))
+        cmd.append("./engines/" + engine)
         t = time.time()
         p = subprocess.run(cmd, cwd=HARNESS, env=go_env(stubs), capture_output=True, text=True, timeout=timeout)
         if p.returncode != 0:
@@ -403,6 +410,18 @@ def ensure_harness_mod():
                 f.write(want)
     except OSError as e:
         raise Broken("cannot prepare harness go.sum: %s" % e)
+
+
+def alt_modfile(scratch):
+    with open(os.path.join(HARNESS, "go.mod")) as f:
+        mod = f.read()
+    mod = mod.replace("=> /repo/starknet-p2p-specs", "=> " + REPO + "/starknet-p2p-specs").replace(
+        "juno => /repo\n", "juno => " + REPO + "\n")
+    p = os.path.join(scratch, "alt.mod")
+    with open(p, "w") as f:
+        f.write(mod)
+    shutil.copy(os.path.join(REPO, "go.sum"), os.path.join(scratch, "alt.sum"))
+    return p
 
 
 def ensure_stubs():
